@@ -1,10 +1,170 @@
-(* Lemmas for C08. *)
+(* Lemmas for C08: the exact integer/float comparison helper is the order of the real values;
+   the regenerated arm tables use it (or a direct same-type comparison) in every numeric arm. *)
+From Coq Require Import ZArith Reals Lia Lra Psatz.
+From Flocq Require Import Core IEEE754.Binary IEEE754.Bits IEEE754.BinarySingleNaN.
 From VP Require Import Base.Tactics Cmp.F64 Cmp.Arms Cmp.Gen_EvalArms Cmp.Model.
+Local Open Scope Z_scope.
+
+(* pure integer core: comparing i*q with +-m, through quotient and remainder *)
+Lemma cmp_scaled_pos : forall i m q, 0 < q -> 0 <= m ->
+  Z.compare (i * q) m =
+  match Z.compare i (Z.quot m q) with
+  | Eq => if Z.eqb (Z.rem m q) 0 then Eq else Lt
+  | c => c
+  end.
+Proof.
+  intros i m q Hq Hm.
+  rewrite Z.quot_div_nonneg, Z.rem_mod_nonneg by lia.
+  pose proof (Z.div_mod m q ltac:(lia)) as D.
+  pose proof (Z.mod_pos_bound m q Hq) as B.
+  destruct (Z.compare_spec i (m / q)) as [E|L|G].
+  - subst i. destruct (Z.eqb_spec (m mod q) 0) as [Z0|NZ].
+    + apply Z.compare_eq_iff. nia.
+    + apply Z.compare_lt_iff. nia.
+  - apply Z.compare_lt_iff. nia.
+  - apply Z.compare_gt_iff. nia.
+Qed.
+
+Lemma cmp_scaled_neg : forall i m q, 0 < q -> 0 <= m ->
+  Z.compare (i * q) (- m) =
+  match Z.compare i (- Z.quot m q) with
+  | Eq => if Z.eqb (Z.rem m q) 0 then Eq else Gt
+  | c => c
+  end.
+Proof.
+  intros i m q Hq Hm.
+  rewrite Z.quot_div_nonneg, Z.rem_mod_nonneg by lia.
+  pose proof (Z.div_mod m q ltac:(lia)) as D.
+  pose proof (Z.mod_pos_bound m q Hq) as B.
+  destruct (Z.compare_spec i (- (m / q))) as [E|L|G].
+  - subst i. destruct (Z.eqb_spec (m mod q) 0) as [Z0|NZ].
+    + apply Z.compare_eq_iff. nia.
+    + apply Z.compare_gt_iff. nia.
+  - apply Z.compare_lt_iff. nia.
+  - apply Z.compare_gt_iff. nia.
+Qed.
+Lemma Rcompare_int_F2R_neg : forall i M p,
+  Rcompare (IZR i) (F2R (Float radix2 M (Zneg p))) = Z.compare (i * Z.pow_pos 2 p) M.
+Proof.
+  intros i M p. unfold F2R. cbn [Fnum Fexp].
+  rewrite <- (Rcompare_mult_r (bpow radix2 (Zpos p))) by apply bpow_gt_0.
+  rewrite Rmult_assoc, <- bpow_plus.
+  replace (Z.neg p + Z.pos p) with 0 by lia.
+  cbn [bpow]. rewrite Rmult_1_r.
+  rewrite <- mult_IZR. apply Rcompare_IZR.
+Qed.
+
+Lemma Rcompare_int_F2R_nonneg : forall i M e, 0 <= e ->
+  Rcompare (IZR i) (F2R (Float radix2 M e)) = Z.compare i (M * 2 ^ e).
+Proof.
+  intros i M e He. unfold F2R. cbn [Fnum Fexp].
+  rewrite <- IZR_Zpower by exact He. cbn [radix_val radix2].
+  rewrite <- mult_IZR. apply Rcompare_IZR.
+Qed.
+
+Lemma trunc_frac_correct : forall s m e (H : SpecFloat.bounded 53 1024 m e = true) i,
+  Rcompare (IZR i) (B2R (B754_finite s m e H : f64)) =
+  match Z.compare i (trunc_Z (B754_finite s m e H)) with
+  | Eq => frac_cmp (B754_finite s m e H)
+  | c => c
+  end.
+Proof.
+  intros s m e H i. cbn [B2R trunc_Z frac_cmp].
+  assert (FIN : forall a b : comparison, a = b -> a = match b with Eq => Eq | Lt => Lt | Gt => Gt end)
+    by (intros a b ->; destruct b; reflexivity).
+  destruct e as [|p|p].
+  - rewrite Rcompare_int_F2R_nonneg by lia. apply FIN. f_equal. destruct s; cbn [cond_Zopp]; lia.
+  - rewrite Rcompare_int_F2R_nonneg by lia. apply FIN. f_equal.
+    rewrite Z.pow_pos_fold. destruct s; cbn [cond_Zopp]; lia.
+  - rewrite Rcompare_int_F2R_neg.
+    assert (Q : 0 < Z.pow_pos 2 p) by (rewrite Z.pow_pos_fold; apply Z.pow_pos_nonneg; lia).
+    destruct s; cbn [cond_Zopp].
+    + change (Z.neg m) with (- Z.pos m).
+      rewrite cmp_scaled_neg by lia.
+      destruct (Z.compare i _); reflexivity.
+    + rewrite cmp_scaled_pos by lia.
+      destruct (Z.compare i _); reflexivity.
+Qed.
+
+Lemma two63_B2R : B2R f_two63 = IZR (2 ^ 63).
+Proof.
+  rewrite <- SF2R_B2SF.
+  replace (B2SF f_two63) with (SpecFloat.S754_finite false 4503599627370496 11) by (vm_compute; reflexivity).
+  cbn [SF2R cond_Zopp]. unfold F2R. cbn [Fnum Fexp].
+  rewrite <- (IZR_Zpower radix2) by lia. rewrite <- mult_IZR. f_equal.
+Qed.
+Lemma neg_two63_B2R : B2R f_neg_two63 = IZR (- 2 ^ 63).
+Proof.
+  rewrite <- SF2R_B2SF.
+  replace (B2SF f_neg_two63) with (SpecFloat.S754_finite true 4503599627370496 11) by (vm_compute; reflexivity).
+  cbn [SF2R cond_Zopp]. unfold F2R. cbn [Fnum Fexp].
+  rewrite <- (IZR_Zpower radix2) by lia. rewrite <- mult_IZR. f_equal.
+Qed.
+Lemma two63_finite : is_finite f_two63 = true /\ is_finite f_neg_two63 = true.
+Proof. split; vm_compute; reflexivity. Qed.
+
+Lemma cmp_int_float_correct : forall i (f : f64),
+  is_finite f = true -> - 2 ^ 63 <= i < 2 ^ 63 ->
+  cmp_int_float i f = Some (Rcompare (IZR i) (B2R f)).
+Proof.
+  intros i f Fin Hi. unfold cmp_int_float.
+  assert (NN : f_is_nan f = false) by (destruct f; try discriminate; reflexivity).
+  rewrite NN.
+  unfold f_ge, f_lt, fcmp.
+  rewrite (Bcompare_correct 53 1024 f f_two63 Fin (proj1 two63_finite)).
+  rewrite (Bcompare_correct 53 1024 f f_neg_two63 Fin (proj2 two63_finite)).
+  rewrite two63_B2R, neg_two63_B2R.
+  assert (I1 : (IZR i < IZR (2 ^ 63))%R) by (apply IZR_lt; lia).
+  assert (I2 : (IZR (- 2 ^ 63) <= IZR i)%R) by (apply IZR_le; lia).
+  destruct (Rcompare_spec (B2R f) (IZR (2 ^ 63))) as [L|E|G].
+  2:{ f_equal. symmetry. apply Rcompare_Lt. lra. }
+  2:{ f_equal. symmetry. apply Rcompare_Lt. lra. }
+  destruct (Rcompare_spec (B2R f) (IZR (- 2 ^ 63))) as [L2|E2|G2].
+  { f_equal. symmetry. apply Rcompare_Gt. lra. }
+  - destruct f as [s| |  |s m e H]; try discriminate.
+    + cbn [B2R trunc_Z frac_cmp]. rewrite (Rcompare_IZR i 0).
+      destruct (Z.compare i 0); reflexivity.
+    + rewrite trunc_frac_correct. destruct (Z.compare i _); reflexivity.
+  - destruct f as [s| |  |s m e H]; try discriminate.
+    + cbn [B2R trunc_Z frac_cmp]. rewrite (Rcompare_IZR i 0).
+      destruct (Z.compare i 0); reflexivity.
+    + rewrite trunc_frac_correct. destruct (Z.compare i _); reflexivity.
+Qed.
+
+(* ------------------------------------------------------------------ values as reals *)
+Definition num_val (v : value) : R :=
+  match v with VInt z => IZR z | VFloat f => B2R f | _ => 0%R end.
+(* a finite numeric operand: an i64, or a finite binary64 *)
+Definition finite_num (v : value) : Prop :=
+  match v with
+  | VInt z => - 2 ^ 63 <= z < 2 ^ 63
+  | VFloat f => is_finite f = true
+  | _ => False
+  end.
+(* the relation an operator token denotes on the reals *)
+Definition R_rel (r : rel) (x y : R) : Prop :=
+  match r with RLt => (x < y)%R | RLe => (x <= y)%R | RGt => (x > y)%R | RGe => (x >= y)%R end.
+
+Lemma rel_test_spec : forall r x y, rel_test r (Rcompare x y) = true <-> R_rel r x y.
+Proof.
+  intros r x y. destruct (Rcompare_spec x y); destruct r; cbn; split; intro; try lra; try discriminate; try reflexivity.
+Qed.
+
+Lemma rel_test_flip : forall r c, rel_test (rel_flip r) c = rel_test r (CompOpp c).
+Proof. intros [] []; reflexivity. Qed.
+
+Definition rel_eqb (a b : rel) : bool :=
+  match a, b with RLt, RLt | RLe, RLe | RGt, RGt | RGe, RGe => true | _, _ => false end.
+Lemma rel_eqb_eq : forall a b, rel_eqb a b = true -> a = b.
+Proof. intros [] []; cbn; congruence. Qed.
 
 Definition num_tys : list vty := [TInt; TFloat].
 Definition ord_ops : list cop := [OLt; OLe; OGt; OGe].
 
-(* decidable form over the regenerated table: an arm exists and its combine fits the operand types *)
+Definition tbl_forall (P : fn -> cop -> vty -> vty -> bool) : bool :=
+  forallb (fun f => forallb (fun o => forallb (fun lt => forallb (fun rt => P f o lt rt) num_tys) num_tys) ord_ops) [FExpr; FBinop].
+
+(* ---------------------------------------------------------------- totality (table) *)
 Definition combine_fits (c : combine) (lt rt : vty) : bool :=
   match c, lt, rt with
   | CDirect _, TInt, TInt | CDirect _, TFloat, TFloat | CDirect _, TStr, TStr => true
@@ -13,12 +173,12 @@ Definition combine_fits (c : combine) (lt rt : vty) : bool :=
   | _, _, _ => false
   end.
 
-Definition total_check : bool :=
-  forallb (fun f => forallb (fun o => forallb (fun lt => forallb (fun rt =>
-    match find_arm eval_arms f o lt rt with
-    | Some a => combine_fits (a_how a) lt rt
-    | None => false
-    end) num_tys) num_tys) ord_ops) [FExpr; FBinop].
+Definition total_P (f : fn) (o : cop) (lt rt : vty) : bool :=
+  match find_arm eval_arms f o lt rt with
+  | Some a => combine_fits (a_how a) lt rt
+  | None => false
+  end.
+Definition total_check : bool := tbl_forall total_P.
 
 Lemma total_check_ok : total_check = true.
 Proof. vm_compute. reflexivity. Qed.
@@ -28,21 +188,176 @@ Proof.
   intros c l r H. destruct c, l, r; cbn in H; try discriminate; cbn; eauto.
 Qed.
 
+Lemma table4 : forall (P : fn -> cop -> vty -> vty -> bool) f o lt rt,
+  tbl_forall P = true ->
+  In o ord_ops -> In lt num_tys -> In rt num_tys -> P f o lt rt = true.
+Proof.
+  intros P f o lt rt T Ho Hl Hr. unfold tbl_forall in T.
+  rewrite forallb_forall in T.
+  assert (Hf : In f [FExpr; FBinop]) by (destruct f; cbn; auto).
+  specialize (T f Hf). rewrite forallb_forall in T. specialize (T o Ho).
+  rewrite forallb_forall in T. specialize (T _ Hl). rewrite forallb_forall in T. exact (T _ Hr).
+Qed.
+
+Lemma ord_not_eq : forall o, In o ord_ops -> match o with OEq | ONotEq => False | _ => True end.
+Proof. intros o Ho. cbn in Ho. intuition subst; exact I. Qed.
+
 Lemma total_lemma :
   forall (f : fn) (o : cop) (l r : value),
     In o [OLt; OLe; OGt; OGe] -> In (ty_of l) [TInt; TFloat] -> In (ty_of r) [TInt; TFloat] ->
     exists b, eval_cmp f o l r = Some (VBool b).
 Proof.
   intros f o l r Ho Hl Hr.
-  pose proof total_check_ok as T. unfold total_check in T.
-  rewrite forallb_forall in T.
-  assert (Hf : In f [FExpr; FBinop]) by (destruct f; cbn; auto).
-  specialize (T f Hf). rewrite forallb_forall in T. specialize (T o Ho).
-  rewrite forallb_forall in T. specialize (T _ Hl). rewrite forallb_forall in T. specialize (T _ Hr).
+  pose proof (table4 total_P f o _ _ total_check_ok Ho Hl Hr) as T. unfold total_P in T.
   unfold eval_cmp, eval_cmp_tbl.
   destruct (find_arm eval_arms f o (ty_of l) (ty_of r)) as [a|] eqn:E; [|discriminate].
   destruct (apply_fits _ _ _ T) as [b Hb].
-  assert (Hoo : match o with OEq | ONotEq => False | _ => True end).
-  { cbn in Ho. intuition subst; exact I. }
+  pose proof (ord_not_eq o Ho) as Hoo.
   destruct o; try contradiction; rewrite Hb; eauto.
+Qed.
+
+(* ------------------------------------------------------------- exactness (table) *)
+Definition arm_exact (o : cop) (lt rt : vty) (c : combine) : bool :=
+  match rel_of_cop o with
+  | None => false
+  | Some r =>
+      match lt, rt, c with
+      | TInt, TInt, CDirect r' | TFloat, TFloat, CDirect r' | TInt, TFloat, CExactL r' => rel_eqb r r'
+      | TFloat, TInt, CExactR r' => rel_eqb (rel_flip r) r'
+      | _, _, _ => false
+      end
+  end.
+
+Definition order_P (f : fn) (o : cop) (lt rt : vty) : bool :=
+  match find_arm eval_arms f o lt rt with
+  | Some a => arm_exact o lt rt (a_how a)
+  | None => false
+  end.
+Definition order_check : bool := tbl_forall order_P.
+
+Lemma order_check_ok : order_check = true.
+Proof. vm_compute. reflexivity. Qed.
+
+Lemma num_ty : forall v, finite_num v -> In (ty_of v) num_tys.
+Proof. intros [] H; cbn in *; try contradiction; auto. Qed.
+
+Lemma fcmp_correct : forall a b : f64, is_finite a = true -> is_finite b = true ->
+  fcmp a b = Some (Rcompare (B2R a) (B2R b)).
+Proof. intros a b Ha Hb. apply Bcompare_correct; assumption. Qed.
+
+Lemma apply_exact : forall o r c a b,
+  rel_of_cop o = Some r -> arm_exact o (ty_of a) (ty_of b) c = true ->
+  finite_num a -> finite_num b ->
+  apply_combine c a b = Some (rel_test r (Rcompare (num_val a) (num_val b))).
+Proof.
+  intros o r c a b Hr Hx Fa Fb. unfold arm_exact in Hx. rewrite Hr in Hx.
+  destruct a as [| |x|x|]; cbn in Fa; try contradiction;
+  destruct b as [| |y|y|]; cbn in Fb; try contradiction;
+  cbn [ty_of] in Hx; destruct c as [r'|r'|r'|r'|r']; try discriminate;
+  apply rel_eqb_eq in Hx; subst r'; cbn [apply_combine num_val].
+  - rewrite Rcompare_IZR. reflexivity.
+  - rewrite cmp_int_float_correct by assumption. reflexivity.
+  - rewrite cmp_int_float_correct by assumption. cbn [opt_test].
+    rewrite rel_test_flip. rewrite <- Rcompare_sym. reflexivity.
+  - unfold f_rel. rewrite fcmp_correct by assumption. reflexivity.
+Qed.
+
+Lemma order_lemma : forall (f : fn) (o : cop) (r : rel) (a b : value),
+  rel_of_cop o = Some r -> finite_num a -> finite_num b ->
+  eval_cmp f o a b = Some (VBool (rel_test r (Rcompare (num_val a) (num_val b)))).
+Proof.
+  intros f o r a b Hr Fa Fb.
+  assert (Ho : In o ord_ops) by (destruct o; cbn in Hr; try discriminate; cbn; auto 10).
+  pose proof (table4 order_P f o _ _ order_check_ok Ho (num_ty _ Fa) (num_ty _ Fb)) as T. unfold order_P in T.
+  unfold eval_cmp, eval_cmp_tbl.
+  destruct (find_arm eval_arms f o (ty_of a) (ty_of b)) as [arm|] eqn:E; [|discriminate].
+  rewrite (apply_exact o r _ a b Hr T Fa Fb).
+  destruct o; cbn in Hr; try discriminate; reflexivity.
+Qed.
+
+Lemma order_prop_lemma : forall (f : fn) (o : cop) (r : rel) (a b : value),
+  rel_of_cop o = Some r -> finite_num a -> finite_num b ->
+  exists t, eval_cmp f o a b = Some (VBool t) /\ (t = true <-> R_rel r (num_val a) (num_val b)).
+Proof.
+  intros f o r a b Hr Fa Fb. eexists. split; [apply (order_lemma f o r a b Hr Fa Fb)|apply rel_test_spec].
+Qed.
+
+Lemma ge_iff_lemma : forall (f : fn) (a b : value), finite_num a -> finite_num b ->
+  (eval_cmp f OGe a b = Some (VBool true) <->
+   eval_cmp f OGt a b = Some (VBool true) \/ num_val a = num_val b).
+Proof.
+  intros f a b Fa Fb.
+  rewrite (order_lemma f OGe RGe a b eq_refl Fa Fb), (order_lemma f OGt RGt a b eq_refl Fa Fb).
+  destruct (Rcompare_spec (num_val a) (num_val b)) as [L|E|G]; cbn [rel_test]; split; intro H.
+  - discriminate.
+  - destruct H as [H|H]; [discriminate|lra].
+  - right; exact E.
+  - reflexivity.
+  - left; reflexivity.
+  - reflexivity.
+Qed.
+
+(* ------------------------------------------------------------ SASE compare_values *)
+Definition vc_expected (lt rt : vty) : option vchow :=
+  match lt, rt with
+  | TInt, TInt => Some VCIntCmp | TFloat, TFloat => Some VCFloatPartial
+  | TInt, TFloat => Some VCExactL | TFloat, TInt => Some VCExactRRev
+  | _, _ => None
+  end.
+Definition vchow_eqb (a b : vchow) : bool :=
+  match a, b with
+  | VCIntCmp, VCIntCmp | VCFloatPartial, VCFloatPartial | VCCastL, VCCastL | VCCastR, VCCastR
+  | VCExactL, VCExactL | VCExactRRev, VCExactRRev | VCStrCmp, VCStrCmp => true
+  | _, _ => false
+  end.
+Lemma vchow_eqb_eq : forall a b, vchow_eqb a b = true -> a = b.
+Proof. intros [] []; cbn; congruence. Qed.
+
+Definition sase_vc_check : bool :=
+  forallb (fun lt => forallb (fun rt =>
+    match vc_find vc_arms lt rt, vc_expected lt rt with
+    | Some h, Some h' => vchow_eqb h h'
+    | _, _ => false
+    end) num_tys) num_tys.
+Definition sase_cv_check : bool :=
+  forallb (fun o =>
+    match cv_find cv_arms o, rel_of_cop o with
+    | Some (CVOrd acc), Some r => forallb (fun c => Bool.eqb (existsb (cmp_eqb c) acc) (rel_test r c)) [Eq; Lt; Gt]
+    | _, _ => false
+    end) ord_ops.
+Lemma sase_vc_check_ok : sase_vc_check = true. Proof. vm_compute. reflexivity. Qed.
+Lemma sase_cv_check_ok : sase_cv_check = true. Proof. vm_compute. reflexivity. Qed.
+
+Lemma values_compare_exact : forall a b, finite_num a -> finite_num b ->
+  values_compare a b = Some (Rcompare (num_val a) (num_val b)).
+Proof.
+  intros a b Fa Fb.
+  pose proof sase_vc_check_ok as T. unfold sase_vc_check in T.
+  rewrite forallb_forall in T. specialize (T _ (num_ty _ Fa)).
+  rewrite forallb_forall in T. specialize (T _ (num_ty _ Fb)).
+  unfold values_compare, values_compare_tbl.
+  destruct (vc_find vc_arms (ty_of a) (ty_of b)) as [h|]; [|discriminate].
+  destruct a as [| |x|x|]; cbn in Fa; try contradiction;
+  destruct b as [| |y|y|]; cbn in Fb; try contradiction;
+  cbn [ty_of vc_expected] in T; apply vchow_eqb_eq in T; subst h; cbn [num_val].
+  - rewrite Rcompare_IZR. reflexivity.
+  - apply cmp_int_float_correct; assumption.
+  - rewrite cmp_int_float_correct by assumption. cbn [option_map]. rewrite <- Rcompare_sym. reflexivity.
+  - apply fcmp_correct; assumption.
+Qed.
+
+Lemma order_sase_lemma : forall (o : cop) (r : rel) (a b : value),
+  rel_of_cop o = Some r -> finite_num a -> finite_num b ->
+  compare_values a b o = rel_test r (Rcompare (num_val a) (num_val b)).
+Proof.
+  intros o r a b Hr Fa Fb.
+  assert (Ho : In o ord_ops) by (destruct o; cbn in Hr; try discriminate; cbn; auto 10).
+  pose proof sase_cv_check_ok as T. unfold sase_cv_check in T.
+  rewrite forallb_forall in T. specialize (T _ Ho). rewrite Hr in T.
+  unfold compare_values, compare_values_tbl.
+  destruct (cv_find cv_arms o) as [[| |acc]|]; try discriminate.
+  fold (values_compare a b). rewrite (values_compare_exact a b Fa Fb).
+  rewrite forallb_forall in T.
+  specialize (T (Rcompare (num_val a) (num_val b))).
+  apply Bool.eqb_prop. apply T. destruct (Rcompare _ _); cbn; auto.
 Qed.
